@@ -27,7 +27,8 @@ ASSUME = [
 ]
 RULE = ("exhaustive: every pattern over {a,b,*} up to the tier's length x every token over {a,b} up to the tier's "
         "length through pattern.Search with unordered and ordered provider; all sorted dictionaries over the strings "
-        "of length <= 2 in all block layouts x all patterns <= 3 through SelectEntries+Provider+Search; all range "
+        "of length <= 2 in all block layouts x all patterns <= 3 through SelectEntries+Provider+Search; the same over "
+        "multi-byte values (1/2/3/4-byte runes, partial runes, invalid UTF-8 bytes; hints cutting MaxVal inside a rune); all range "
         "end combinations over a set of numbers/non-numbers/edge floats; findSubstring exhaustively; random long "
         "strings, dictionaries, layouts; real active vs sealed fractions (one with several token blocks). "
         "non-trivial = a query with a wildcard and a text fragment, or a range with a given end (sealed: more than "
